@@ -76,9 +76,7 @@ func (d *deco) resp(a *workflow.Action) any {
 		return r
 	}
 	r := hplug.Resp{Path: fmt.Sprintf("resp %d", d.n), Value: int64(d.r.Intn(100))}
-	if d.r.Chance(0.6) {
-		r.Items = []string{fmt.Sprintf("i%d", d.n), "j"}
-	}
+	r.Items = StringsShape(d.r.Intn(6), fmt.Sprintf("i%d", d.n), "j")
 	return r
 }
 
@@ -101,6 +99,20 @@ func (d *deco) attempts(a *workflow.Action, nfail int, ok, open bool) {
 	if open {
 		// an attempt in flight: started, nothing else yet
 		a.Attempts = append(a.Attempts, &workflow.Attempt{Start: d.now()})
+	}
+	switch d.r.Intn(3) {
+	case 0: // exact capacity
+		if len(a.Attempts) > 0 {
+			x := make([]*workflow.Attempt, len(a.Attempts))
+			copy(x, a.Attempts)
+			a.Attempts = x
+		}
+	case 1: // spare capacity
+		x := make([]*workflow.Attempt, len(a.Attempts), len(a.Attempts)+3)
+		copy(x, a.Attempts)
+		if len(x) > 0 {
+			a.Attempts = x
+		}
 	}
 }
 
@@ -430,6 +442,9 @@ func Irregular(r *core.Rand, p *workflow.Plan, first int) []string {
 			did = append(did, "plan.Blocks=nil")
 		case 1:
 			p.Blocks = []*workflow.Block{}
+			if r.Chance(0.5) && len(p.Blocks) == 0 {
+				p.Blocks = make([]*workflow.Block, 0, 3)
+			}
 			did = append(did, "plan.Blocks=empty")
 		case 2:
 			if len(p.Blocks) > 0 {
@@ -445,6 +460,9 @@ func Irregular(r *core.Rand, p *workflow.Plan, first int) []string {
 		case 4:
 			if b := pickBlock(); b != nil {
 				b.Sequences = []*workflow.Sequence{}
+				if r.Chance(0.5) {
+					b.Sequences = make([]*workflow.Sequence, 0, 3)
+				}
 				did = append(did, "block.Sequences=empty")
 			}
 		case 5:
@@ -461,6 +479,10 @@ func Irregular(r *core.Rand, p *workflow.Plan, first int) []string {
 		case 7:
 			if s := pickSeq(); s != nil {
 				s.Actions = []*workflow.Action{}
+				if r.Chance(0.5) {
+					s.Actions = s.Actions[:0:0]
+					s.Actions = make([]*workflow.Action, 0, 3)
+				}
 				did = append(did, "seq.Actions=empty")
 			}
 		case 8:
@@ -475,7 +497,7 @@ func Irregular(r *core.Rand, p *workflow.Plan, first int) []string {
 					c.Actions = nil
 					did = append(did, "checks.Actions=nil")
 				} else {
-					c.Actions = []*workflow.Action{}
+					c.Actions = make([]*workflow.Action, 0, r.Intn(2)*3)
 					did = append(did, "checks.Actions=empty")
 				}
 			}
@@ -487,7 +509,7 @@ func Irregular(r *core.Rand, p *workflow.Plan, first int) []string {
 			}
 		case 11:
 			if a := pickAction(); a != nil {
-				a.Attempts = []*workflow.Attempt{}
+				a.Attempts = make([]*workflow.Attempt, 0, r.Intn(2)*4)
 				did = append(did, "attempts=empty")
 			}
 		case 12:
@@ -547,4 +569,111 @@ func Irregular(r *core.Rand, p *workflow.Plan, first int) []string {
 		}
 	}
 	return did
+}
+
+// ---- slice shapes: nil, empty without capacity, empty with capacity, the [:0] of a filled buffer,
+// non-empty with spare capacity, non-empty exact. A slice with capacity has a backing array that a careless
+// copy can share even when its length is 0.
+
+var ShapeNames = []string{"nil", "empty", "empty-cap", "buf[:0]", "spare-cap", "exact"}
+
+func BytesShape(k int, content string) []byte {
+	switch k % 6 {
+	case 0:
+		return nil
+	case 1:
+		return []byte{}
+	case 2:
+		return make([]byte, 0, 16)
+	case 3:
+		buf := []byte(content + " (stale buffer content)")
+		return buf[:0]
+	case 4:
+		b := make([]byte, len(content), len(content)+8)
+		copy(b, content)
+		return b
+	}
+	b := make([]byte, len(content))
+	copy(b, content)
+	return b
+}
+
+func StringsShape(k int, items ...string) []string {
+	switch k % 6 {
+	case 0:
+		return nil
+	case 1:
+		return []string{}
+	case 2:
+		return make([]string, 0, 4)
+	case 3:
+		buf := append([]string{"stale"}, items...)
+		return buf[:0]
+	case 4:
+		b := make([]string, len(items), len(items)+3)
+		copy(b, items)
+		return b
+	}
+	b := make([]string, len(items))
+	copy(b, items)
+	return b
+}
+
+func mapShape(k int, key, val string) map[string]string {
+	switch k % 3 {
+	case 0:
+		return nil
+	case 1:
+		return map[string]string{}
+	}
+	return map[string]string{key: val, "k": "v"}
+}
+
+// Reshape redraws Plan.Meta and the nested slices / maps of every request from the shapes above.
+// It returns the name of the Meta shape.
+func Reshape(r *core.Rand, p *workflow.Plan) string {
+	mk := r.Intn(6)
+	p.Meta = BytesShape(mk, fmt.Sprintf("meta %d", r.Intn(1000)))
+	n := 0
+	each := func(a *workflow.Action) {
+		if a == nil {
+			return
+		}
+		n++
+		switch q := a.Req.(type) {
+		case hplug.Req:
+			q.Tags = StringsShape(r.Intn(6), fmt.Sprintf("tag %d", n), "t")
+			q.KV = mapShape(r.Intn(3), fmt.Sprintf("key %d", n), "val")
+			a.Req = q
+		case SecReq:
+			q.Tags = StringsShape(r.Intn(6), fmt.Sprintf("tag %d", n))
+			q.Keys = StringsShape(r.Intn(6), fmt.Sprintf("key-%d", n), "k2")
+			q.KV = mapShape(r.Intn(3), "k", fmt.Sprintf("v%d", n))
+			a.Req = q
+		}
+	}
+	groups := func(cs ...*workflow.Checks) {
+		for _, c := range cs {
+			if c != nil {
+				for _, a := range c.Actions {
+					each(a)
+				}
+			}
+		}
+	}
+	groups(p.BypassChecks, p.PreChecks, p.ContChecks, p.PostChecks, p.DeferredChecks)
+	for _, b := range p.Blocks {
+		if b == nil {
+			continue
+		}
+		groups(b.BypassChecks, b.PreChecks, b.ContChecks, b.PostChecks, b.DeferredChecks)
+		for _, q := range b.Sequences {
+			if q != nil {
+				for _, a := range q.Actions {
+					each(a)
+				}
+			}
+		}
+	}
+	return ShapeNames[mk]
 }
